@@ -1178,7 +1178,9 @@ class DiscretizedSpaceElement(Tensor):
             except TypeError:
                 axis = (int(axis),)
 
-            reduced_axes = [i for i in range(self.ndim) if i not in axis]
+            # Also account for negative (counted from the end) axes
+            reduced_axes = [i for i in range(self.ndim)
+                            if i not in axis and i - self.ndim not in axis]
 
         # --- Evaluate ufunc --- #
 
